@@ -86,6 +86,45 @@ def scan_rules(rep, prog, rows, cols):
                 rep.violate("C05." + rule, "%s|scan" % rule, b.where(),
                             "%s does not hold as an identity over the reals%s: %d of %d instances fail, first: %s%s" % (txt, cond, len(bad[rule]), n, bad[rule][0][0], extra), config=cfg)
         rep.count("identities", len(pairs))
+        if rows == 1:
+            # I5: the formulas above are rational functions; an identity says nothing at their POLES. A trapezoid exactly one row tall whose
+            # edges meet at its far end (the lower half of a triangle with its bottom vertex one row below the middle one - integer vertex
+            # coordinates do it) has span width 0 one row down: whatever is divided by that width is not finite. The extracted fragment
+            # values are evaluated at such a trapezoid, which has the scenario's own row and fragment counts.
+            import math
+            pt = {"y0": 80.0, "y1": 81.0, "lx0": 20.0, "rx0": 26.0, "lx1": 23.0, "rx1": 23.0,
+                  "gx": 1e-4, "gy": -2e-4, "gc": 1.0, "fx": 0.25, "fy": -0.5, "fc": 3.0}
+            try:
+                fits = S.trace_holds(trace, pt) and all(S.num_eval(a_, pt) - S.num_eval(b_, pt) == n_ for a_, b_, n_ in log)
+            except (S.NotNumeric, ZeroDivisionError, OverflowError):
+                fits = False
+            if fits:
+                worst = None
+                for m in range(cols):
+                    fr = frags[0][m]
+                    pos, var = fr[3][0], A.deref_all(it, fr[3][1])
+                    for nm, v in zip(("x", "y", "reciprocal depth"), S.components(it, pos)):
+                        try:
+                            val = S.num_eval(A.deref_all(it, v), pt)
+                        except (S.NotNumeric, ZeroDivisionError, OverflowError):
+                            val = math.nan
+                        if not math.isfinite(val) and worst is None:
+                            worst = (m, nm, val)
+                    try:
+                        val = S.num_eval(var, pt)
+                    except (S.NotNumeric, ZeroDivisionError, OverflowError):
+                        val = math.nan
+                    if not math.isfinite(val) and worst is None:
+                        worst = (m, "attribute", val)
+                rep.inst("C05.I5", "one-row trapezoid ending in an apex (y 80..81, left edge 20 -> 23, right edge 26 -> 23: three fragments on row 80.5)%s: every "
+                                   "fragment value is finite: %s" % (cond, worst is None), config=cfg)
+                if worst is not None:
+                    rep.violate("C05.I5", "I5|apex-pole", b.where(),
+                                "for a trapezoid exactly one row tall whose edges meet at its far end (e.g. the lower half of the triangle (150,20) (20,80) (260,81)) the %s of "
+                                "fragment %d evaluates to %s: the per-pixel step is divided by the span width one row further down, which is 0 there%s"
+                                % (worst[1], worst[0], worst[2], cond), config=cfg)
+            else:
+                rep.inst("C05.I5", "one-row trapezoid ending in an apex: does not follow this path%s" % cond, config=cfg)
 
 
 def dropped_triangle_witness(order, constraints, tries=20000):
@@ -101,6 +140,18 @@ def dropped_triangle_witness(order, constraints, tries=20000):
         cx, cy = ax + rnd.uniform(-12, 12), ay + rnd.uniform(1.5, 14)
         t = rnd.uniform(0.15, 0.85)
         bx, by = ax + t * (cx - ax) + rnd.choice((-1, 1)) * rnd.uniform(0.05, 2.5), ay + t * (cy - ay)
+        if _ % 3 == 1:
+            # a sliver less than one pixel tall that straddles a row of pixel centres, several pixels wide
+            k = float(rnd.randrange(0, 8))
+            ay, cy = k + rnd.uniform(0.05, 0.4), k + rnd.uniform(0.6, 0.95)
+            ax, cx = rnd.uniform(0, 6), rnd.uniform(0, 6)
+            by, bx = rnd.uniform(ay + 0.01, cy - 0.01), rnd.uniform(9, 20)
+        elif _ % 3 == 2:
+            # a sliver less than one pixel wide that straddles a column of pixel centres, several pixels tall
+            kx = float(rnd.randrange(0, 12))
+            ax, cx = kx + rnd.uniform(0.05, 0.4), kx + rnd.uniform(0.1, 0.45)
+            ay, cy = rnd.uniform(0, 3), rnd.uniform(9, 16)
+            by, bx = rnd.uniform(ay + 1, cy - 1), kx + rnd.uniform(0.6, 0.95)
         pts = [(ax, ay), (bx, by), (cx, cy)]           # by rank: top, mid, bottom
         point = {}
         for i, n in enumerate(names):
@@ -279,7 +330,7 @@ def check(rep, args):
                        "scenario; fragment position, depth and attribute compared with the plane formulas as exact rational-function identities",
         "evaluations": len(rep.instances),
         "distinct_nontrivial": len({i["what"] for i in rep.instances}),
-        "rules": ["I1", "I2", "I3", "I4"],
+        "rules": ["I1", "I2", "I3", "I4", "I5"],
     }
     return "other", cov, ["identities hold over the reals; the 0.5 % accuracy of the incremental float evaluation and finiteness on tiny triangles are not decided",
                           "round_up_to_half is an uninterpreted function here (its meaning is C20.F7 / C04)",
